@@ -9,6 +9,7 @@
 package simrt
 
 import (
+	"os"
 	"bytes"
 	"fmt"
 	"hash/fnv"
@@ -65,8 +66,36 @@ func (t *Tape) Intn(n int) int {
 	if n <= 1 {
 		return 0
 	}
-	return int(t.next() % uint32(n))
+	v := int(t.next() % uint32(n))
+	if TapeTrace != nil {
+		pc := make([]uintptr, 6)
+		k := runtime.Callers(2, pc)
+		fr := runtime.CallersFrames(pc[:k])
+		w := ""
+		for i := 0; i < 4; i++ {
+			f, more := fr.Next()
+			w += " <" + f.Function
+			if !more {
+				break
+			}
+		}
+		TapeTrace(fmt.Sprintf("tape n=%d v=%d%s", n, v, w))
+	}
+	return v
 }
+
+// DebugP makes every preemption point verify that its goroutine holds the baton (slow).
+var DebugP = os.Getenv("VERIF_DEBUG_P") != ""
+
+// PLogFrom..PLogTo: scheduling steps during which every preemption point is logged into the trace (debugging aid).
+var PLogFrom, PLogTo = func() (int, int) {
+	var a, b int
+	fmt.Sscanf(os.Getenv("VERIF_DEBUG_PLOG"), "%d-%d", &a, &b)
+	return a, b
+}()
+
+// TapeTrace, when set, sees every draw (debugging aid for determinism hunts).
+var TapeTrace func(string)
 
 // ---------------------------------------------------------------- sim core
 
@@ -124,6 +153,7 @@ type Sim struct {
 	nextPre   int
 	preLeft   int
 	PreMaxGap int
+	quiet     atomic.Int32
 
 	// Stalled, when non-nil, reports whether tasks with the given label are currently withheld
 	// from scheduling (node stall fault). Must be deterministic.
@@ -270,7 +300,14 @@ func Run(tape *Tape, maxSteps int, horizon time.Duration, root func(s *Sim)) *Si
 		s.holder = t
 		s.hashStep(t.ID, t.blockOn)
 		if s.TraceOn {
-			s.Trace = append(s.Trace, "run "+t.ID+" after "+t.blockOn)
+			ids := ""
+			if os.Getenv("VERIF_TRACE_READY") != "" {
+				for _, e := range elig {
+					ids += " " + e.ID
+				}
+				ids = fmt.Sprintf(" pc=%d", s.pcount)
+			}
+			s.Trace = append(s.Trace, "run "+t.ID+" after "+t.blockOn+ids)
 		}
 		s.mu.Unlock()
 		t.wake <- struct{}{}
@@ -472,11 +509,51 @@ func (s *Sim) armLocked() {
 	s.nextPre = s.pcount + g
 }
 
+// Quiet runs f (harness code that calls into transformed library code merely to observe: decoding a message for a
+// log line, reading accessors of a state) with preemption points switched off, so that observation never perturbs
+// the schedule. Only the baton holder runs, so a plain counter suffices.
+func Quiet(f func()) {
+	s := cur.Load()
+	if s == nil {
+		f()
+		return
+	}
+	s.quiet.Add(1)
+	defer s.quiet.Add(-1)
+	f()
+}
+
 // P is a potential preemption point inserted before statements.
 func P() {
 	s := cur.Load()
-	if s == nil {
+	if s == nil || s.quiet.Load() > 0 {
 		return
+	}
+	if DebugP {
+		g := goid()
+		s.mu.Lock()
+		t := s.tasks[g]
+		h := s.holder
+		s.mu.Unlock()
+		if t != h {
+			buf := make([]byte, 4096)
+			n := runtime.Stack(buf, false)
+			hid := "<nil>"
+			if h != nil {
+				hid = h.ID
+			}
+			tid := "<unknown>"
+			if t != nil {
+				tid = t.ID + " state=" + strconv.Itoa(t.state) + " on=" + t.blockOn
+			}
+			fmt.Fprintf(os.Stderr, "P() OUTSIDE BATON: task %s holder %s\n%s\n", tid, hid, buf[:n])
+		}
+	}
+	if PLogFrom > 0 && s.Steps >= PLogFrom && s.Steps <= PLogTo {
+		_, file, line, _ := runtime.Caller(1)
+		s.mu.Lock()
+		s.Trace = append(s.Trace, fmt.Sprintf("P step=%d %s:%d", s.Steps, file, line))
+		s.mu.Unlock()
 	}
 	s.mu.Lock()
 	s.pcount++
